@@ -303,6 +303,33 @@ func (x *Exec) callMayWriteHeap(call *ast.CallExpr) bool {
 	return true
 }
 
+// nextLoopOrd returns the ordinal of loop statement n. For the function under contract the ordinal is
+// static (source order within the body, function literals excluded), so that it does not depend on how
+// many states reach the loop under path splitting; inlined frames keep a per-activation counter.
+func (x *Exec) nextLoopOrd(f *Frame, n ast.Node) int {
+	if f.contract != nil && !f.inlined && f.fi != nil && f.fi.Decl != nil && f.fi.Decl.Body != nil {
+		if f.loopIdx == nil {
+			f.loopIdx = map[ast.Node]int{}
+			k := 0
+			ast.Inspect(f.fi.Decl.Body, func(m ast.Node) bool {
+				switch m.(type) {
+				case *ast.FuncLit:
+					return false
+				case *ast.ForStmt, *ast.RangeStmt:
+					k++
+					f.loopIdx[m] = k
+				}
+				return true
+			})
+		}
+		if o, ok := f.loopIdx[n]; ok {
+			return o
+		}
+	}
+	f.loopOrd++
+	return f.loopOrd
+}
+
 func (x *Exec) loopSpec(ord int) *LoopSpec {
 	f := x.frame()
 	if f.contract == nil || f.inlined {
@@ -483,8 +510,7 @@ func sortObjs(objs []types.Object) {
 
 func (x *Exec) execFor(s *State, n *ast.ForStmt) *State {
 	f := x.frame()
-	f.loopOrd++
-	ord := f.loopOrd
+	ord := x.nextLoopOrd(f, n)
 	label := f.label
 	f.label = ""
 	if n.Init != nil {
@@ -614,8 +640,7 @@ func (x *Exec) evalClauseVal(s *State, c *Clause) *Term {
 
 func (x *Exec) execRange(s *State, n *ast.RangeStmt) *State {
 	f := x.frame()
-	f.loopOrd++
-	ord := f.loopOrd
+	ord := x.nextLoopOrd(f, n)
 	label := f.label
 	f.label = ""
 	spec := x.loopSpec(ord)
